@@ -10,6 +10,7 @@ import Petl.Group
 import Petl.Dedup
 import Petl.Select
 import Petl.ErrPolicy
+import Petl.Basics
 namespace Petl
 
 def opCmp : P String := do
@@ -498,6 +499,139 @@ def opFieldMap : P String := do
   | _ :: rows =>
     pure (showOut (outOf (ms.map (·.1)) (fieldmapRows pol ev (ms.map (·.2)) rows)))
 
+/-! ### C12: row / field transforms -/
+
+def pKeyReq : P (List FSpec) := do
+  match (← pKey) with
+  | some k => pure k
+  | none => P.fail "field spec required"
+
+def pFieldVal : P FieldVal := do
+  let t ← tok
+  match t with
+  | "c" => return .const (← pVal)
+  | "len" => return .rowLen
+  | "cell" => return .cellPlus (← pNat)
+  | _ => P.fail s!"bad field value {t}"
+
+def pOptRow : P (Option Row) := do
+  match (← peekTok) with
+  | some "-" => do let _ ← tok; pure none
+  | _ => do let r ← pRow; pure (some r)
+
+def strLe (a b : Val) : Bool :=
+  match a, b with
+  | .str x, .str y => !natListLt y x
+  | _, _ => true
+
+def opXf : P String := do
+  let name ← tok
+  match name with
+  | "cut" => do
+    let spec ← pKeyReq; let m ← pVal; let t ← pTable
+    pure (showOut (cutView spec m t))
+  | "cutout" => do
+    let spec ← pKeyReq; let m ← pVal; let t ← pTable
+    pure (showOut (cutoutView spec m t))
+  | "cat" => do
+    let m ← pVal; let h ← pOptRow; let ts ← pList pTable
+    pure (showOut (catView m h ts))
+  | "stack" => do
+    let m ← pVal; let trim ← pBool; let pad ← pBool; let ts ← pList pTable
+    pure (showOut (stackView m trim pad ts))
+  | "annex" => do
+    let m ← pVal; let ts ← pList pTable
+    pure (showOut (annexView m ts))
+  | "addfield" => do
+    let f ← pVal; let fv ← pFieldVal; let i ← pOptInt; let m ← pVal; let t ← pTable
+    pure (showOut (addfieldView f fv i m t))
+  | "addfields" => do
+    let defs ← pList (do let f ← pVal; let fv ← pFieldVal; let i ← pOptInt; pure (f, fv, i))
+    let m ← pVal; let t ← pTable
+    pure (showOut (addfieldsView defs m t))
+  | "addrownumbers" => do
+    let a ← pInt; let b ← pInt; let f ← pVal; let t ← pTable
+    pure (showOut (addrownumbersView a b f t))
+  | "addcolumn" => do
+    let f ← pVal; let col ← pSeq; let i ← pOptInt; let m ← pVal; let t ← pTable
+    pure (showOut (addcolumnView f col i m t))
+  | "setheader" => do let h ← pRow; let t ← pTable; pure (showOut (setheaderView h t))
+  | "extendheader" => do let h ← pRow; let t ← pTable; pure (showOut (extendheaderView h t))
+  | "pushheader" => do let h ← pRow; let t ← pTable; pure (showOut (pushheaderView h t))
+  | "prefixheader" => do
+    match (← pOptText) with
+    | some p => do let t ← pTable; pure (showOut (prefixheaderView p t))
+    | none => P.fail "prefix required"
+  | "suffixheader" => do
+    match (← pOptText) with
+    | some p => do let t ← pTable; pure (showOut (suffixheaderView p t))
+    | none => P.fail "suffix required"
+  | "rename" => do
+    let strict ← pBool
+    let spec ← pList (do let f ← pFSpec; let v ← pVal; pure (f, v))
+    let t ← pTable
+    pure (showOut (renameView spec strict t))
+  | "sortheader" => do
+    let rev ← pBool; let m ← pVal; let t ← pTable
+    match t with
+    | [] => pure (showOut (.ok []))
+    | hdr :: rows =>
+      let shdr := hdr.mergeSort strLe
+      let spec := shdr.filterMap (fun c => match c with | .str s => some (FSpec.name s) | _ => none)
+      match asindices hdr spec with
+      | .error e => pure (showOut (.fail [] e))
+      | .ok idx =>
+        let _ := rev
+        pure (showOut (.ok (shdr :: pickRows idx m rows)))
+  | "movefield" => do
+    let f ← pVal; let i ← pInt; let m ← pVal; let t ← pTable
+    let hdr := t.headD []
+    let outhdr := pyInsert (hdr.filter (fun c => !Val.pyEq c f)) (some i) f
+    let spec := outhdr.filterMap (fun c => match c with | .str s => some (FSpec.name s) | _ => none)
+    match asindices hdr spec with
+    | .error e => pure (showOut (.fail [outhdr] e))
+    | .ok idx => pure (showOut (.ok (outhdr :: pickRows idx m (t.drop 1))))
+  | "filldown" => do
+    let fields ← pKey; let m ← pVal; let t ← pTable
+    match t with
+    | [] => pure (showOut (.ok []))
+    | [hdr] => pure (showOut (.ok [hdr]))
+    | hdr :: first :: rows =>
+      let spec := match fields with
+        | some k => k
+        | none => hdr.filterMap (fun c => match c with | .str s => some (FSpec.name s) | _ => none)
+      match asindices hdr spec with
+      | .error e => pure (showOut (.fail [hdr] e))
+      | .ok idx => pure (showOut (.ok (hdr :: first :: filldownRows idx m first rows)))
+  | "fillright" => do
+    let m ← pVal; let t ← pTable
+    match t with
+    | [] => pure (showOut (.ok []))
+    | hdr :: rows => pure (showOut (.ok (hdr :: rows.map (fillrightRow m none))))
+  | "fillleft" => do
+    let m ← pVal; let t ← pTable
+    match t with
+    | [] => pure (showOut (.ok []))
+    | hdr :: rows => pure (showOut (.ok (hdr :: rows.map (fillleftRow m))))
+  | "values" => do
+    let spec ← pKeyReq; let m ← pVal; let t ← pTable
+    let hdr := t.headD []
+    match asindices hdr spec with
+    | .error e => pure (showOut (.fail [] e))
+    | .ok idx =>
+      if idx.isEmpty then pure (showOut (.fail [] .assertion)) else
+      pure (showOut (.ok ((valuesOf idx m (t.drop 1)).map (fun v => [v]))))
+  | "records" => do
+    let m ← pVal; let t ← pTable
+    match t with
+    | [] => pure (showOut (.ok []))
+    | hdr :: rows => pure (showOut (.ok (recordsOf hdr.length m rows)))
+  | "columns" => do
+    let m ← pVal; let t ← pTable
+    let hdr := t.headD []
+    pure (showOut (.ok (columnsOf hdr.length m (t.drop 1))))
+  | _ => P.fail s!"bad transform {name}"
+
 def dispatch (op : String) : Option (P String) :=
   match op with
   | "cmp" => some opCmp
@@ -525,6 +659,7 @@ def dispatch (op : String) : Option (P String) :=
   | "rowmap" => some opRowMap
   | "rowmapmany" => some opRowMapMany
   | "fieldmap" => some opFieldMap
+  | "xf" => some opXf
   | _ => none
 
 end Petl
